@@ -88,9 +88,9 @@ func walkAttributes(elem *etree.Element) {
 		} else if y.Space == "xmlns" && x.Space != "xmlns" {
 			return false
 		}
-		// then order by namespace and finally by key
-		if x.Space != y.Space {
-			return x.Space < y.Space
+		// then order by namespace URI (not prefix) and finally by key
+		if xs, ys := attrNamespace(elem, x.Space), attrNamespace(elem, y.Space); xs != ys {
+			return xs < ys
 		}
 		return x.Key < y.Key
 	})
@@ -108,6 +108,22 @@ func walkAttributes(elem *etree.Element) {
 		}
 		i++
 	}
+}
+
+// namespace URI that an attribute prefix is bound to at this element
+func attrNamespace(elem *etree.Element, prefix string) string {
+	switch prefix {
+	case "":
+		return ""
+	case "xml":
+		return "http://www.w3.org/XML/1998/namespace"
+	}
+	for e := elem; e != nil; e = e.Parent() {
+		if decl := e.SelectAttr(putDecl(prefix)); decl != nil {
+			return decl.Value
+		}
+	}
+	return ""
 }
 
 // does this element or its attributes reference the given namespace?
